@@ -179,8 +179,17 @@ def clause2_timers(ctx, P, cg):
     ctx.ob("C07.2 R-OWN", ti, "timerfd-closed-on-failure", bad is None, "cjet_timer_init fails after timerfd_create without closing the descriptor",
            witness=bad.witness() if bad else None)
     td = P.fn("timer_linux.c:cjet_timer_destroy")
-    names = [P.srcname_of(i.callee) if i.callee else "icall" for i in td.all_insts() if i.op == "call"]
-    ctx.ob("C07.2 R-OWN", td, "destroy-removes-then-closes", names == ["icall", "socket_close"], "cjet_timer_destroy must remove from the loop, then close (found %s)" % names)
+    # on every path: removed from the loop (the indirect call), then closed - other calls (logging) do not matter
+    badd = None
+    names = []
+    for v in Q.path_views(ctx, P, td):
+        names = [("icall" if not i.callee else P.srcname_of(i.callee)) for _, i in v.calls()
+                 if not i.callee or P.srcname_of(i.callee) in ("socket_close", "close")]
+        if names != ["icall", "socket_close"] and names != ["icall", "close"]:
+            badd = (v, names)
+    ctx.ob("C07.2 R-OWN", td, "destroy-removes-then-closes", badd is None and bool(names),
+           "cjet_timer_destroy must remove from the loop, then close, on every path (found %s)" % (badd[1] if badd else names),
+           witness=badd[0].witness() if badd else None)
     if n < 1:
         raise AnalysisBroken("no cjet_timer_init call site")
     # the converse: in a function that initialises a timer, that timer is destroyed only on paths where the initialisation has
